@@ -134,6 +134,17 @@ func (st *Store) RoundTrip(req *http.Request) (*http.Response, error) {
 	h.Set("Content-Range", fmt.Sprintf("bytes %d-%d/%d", a, b, len(data)))
 	part := data[a : b+1]
 	failAt := -1
+	if fault.Fire("http-short-clean") {
+		// a 206 that honestly declares, and cleanly delivers, fewer bytes than were asked for (half
+		// of the time none at all): the reader sees a plain io.EOF, not a broken connection
+		k := 0
+		if fault.Intn(2) == 1 && len(part) > 1 {
+			k = fault.Intn(len(part))
+		}
+		part = part[:k]
+		h.Set("Content-Length", fmt.Sprint(len(part)))
+		return resp(req, 206, h, part, -1), nil
+	}
 	if fault.Fire("http-short-body") {
 		failAt = fault.Intn(len(part) + 1)
 		if failAt == len(part) && len(part) > 0 {
